@@ -35,14 +35,14 @@ def check(chk):
                                        and src(n.ast.value) == "True")]
     free = [n.id for n in cfg.nodes_where(lambda n: n.kind == "stmt" and isinstance(n.ast, ast.Assign) and src(n.ast.targets[0]).endswith("is_busy")
                                           and src(n.ast.value) == "False")]
-    chk.require(busy, "C15: FileManager.save no longer sets is_busy")
+    chk.need(busy, "PAIR-16", "FileManager.save marks itself busy while it writes", f)
     w = cfg.path_avoiding(busy[0].id, [cfg.exit.id, cfg.raise_.id], free, ignore_exc=False)
     chk.ob("PAIR-16", "FileManager.save resets is_busy on every exit, exceptional ones included", w is None and bool(free), f.where(busy[0].ast),
            path=cfg.fmt_path(w, FM) if w else None, detail="an exception while writing leaves the flag set: every data manager's writer spins for ever",
            construct=f.ident, text="is_busy not reset on some exit")
     saves = [(n, c) for n, c in cfg.calls_named("save") if "file_interfaces" in src(c.func.value)]
     reps = [(n, c) for n, c in cfg.calls_named("replace", "rename") if dotted(c.func.value) == "os"]
-    chk.require(saves, "C15: interface save vanished from FileManager.save")
+    chk.need(saves, "PAIR-17", "FileManager.save writes the data through the file interface", f)
     chk.ob("PAIR-17", "the file is renamed into place (atomic replace)", bool(reps), f.where(), construct=f.ident, text="os.replace present")
     sn, sc = saves[0]
     tmp = src(sc.args[0]) if sc.args else ""
@@ -88,7 +88,7 @@ def check(chk):
     chk.analysed(t)
     cfg = t.cfg()
     wl = [x for x in ast.walk(t.node) if isinstance(x, ast.While) and "thread_stopper" in src(x.test)]
-    chk.require(wl, "C15: writer loop vanished")
+    chk.need(wl, "FLOW-6", "the writer thread loops until the machine stops", t)
     loop = wl[0]
 
     def inloop(node):
@@ -97,7 +97,7 @@ def check(chk):
     copies = [n for n in cfg.nodes_where(lambda n: n.kind == "stmt" and isinstance(n.ast, ast.Assign) and isinstance(n.ast.value, ast.Call) and
                                          call_attr(n.ast.value) == "deepcopy" and inloop(n.ast))]
     lsaves = [(n, c) for n, c in cfg.calls_named("save") if "FileManager" in src(c.func.value) and inloop(c)]
-    chk.require(lsaves, "C15: save call vanished from the writer loop")
+    chk.need(lsaves, "FLOW-6", "the writer loop saves the data (FileManager.save)", t)
     ok = bool(clears) and bool(copies) and cfg.dominates(clears[0].id, copies[0].id) and all(cfg.dominates(copies[0].id, n.id) for n, c in lsaves)
     chk.ob("FLOW-6", "the writer clears the dirty flag, then takes the snapshot, then writes it", ok, t.where(),
            detail="clearing after the write discards the notification of a save that arrived during the write: the newer data is never written",
